@@ -32,6 +32,9 @@ fn render(cm: &Value, style: u64) -> String {
     let mut t = String::new();
     t.push_str("/CIDInit /ProcSet findresource begin\n12 dict begin\nbegincmap\n");
     t.push_str("/CIDSystemInfo << /Registry (Adobe) /Ordering (UCS) /Supplement 0 >> def\n/CMapName /Adobe-Identity-UCS def\n/CMapType 2 def\n");
+    if let Some(parent) = cm["parent"].as_str() {
+        t.push_str(&format!("/{parent} usecmap\n"));
+    }
     let cs = cm["codespace"].as_array().unwrap();
     t.push_str(&format!("{} begincodespacerange\n", cs.len()));
     for r in cs {
@@ -121,7 +124,11 @@ fn run(a: &Args) {
     }
     for (ci, cm) in cmaps.iter().enumerate() {
         let text = render(cm, ci as u64);
-        out.line(&json!({"ev": "reset", "case": ci, "cmap": {"codespace": cm["codespace"], "entries": cm["entries"]}, "text": text}));
+        let mut abstract_cmap = json!({"codespace": cm["codespace"], "entries": cm["entries"]});
+        if !cm["parent"].is_null() {
+            abstract_cmap["parent"] = cm["parent"].clone();
+        }
+        out.line(&json!({"ev": "reset", "case": ci, "cmap": abstract_cmap, "text": text}));
         let parsed = std::panic::catch_unwind(|| CMap::parse(text.as_bytes()));
         let cmap = match parsed {
             Ok(Ok(c)) => c,
